@@ -6,6 +6,7 @@ pub mod c07;
 pub mod c08;
 pub mod c09;
 pub mod c10;
+pub mod c11;
 pub mod c12;
 pub mod c13;
 pub mod c14;
@@ -28,6 +29,7 @@ pub fn get(id: &str) -> Option<Box<dyn Prop>> {
     "C08" => Some(Box::new(c08::C08)),
     "C09" => Some(Box::new(c09::C09)),
     "C10" => Some(Box::new(c10::C10)),
+    "C11" => Some(Box::new(c11::C11)),
     "C12" => Some(Box::new(c12::C12)),
     "C13" => Some(Box::new(c13::C13)),
     "C14" => Some(Box::new(c14::C14)),
